@@ -382,7 +382,7 @@ func (n *pgNode) redeclares(scope []string) bool {
 	return false
 }
 
-var pgLazyStages = map[string]bool{"map": true, "accept": true}
+var pgLazyStages = map[string]bool{"map": true, "accept": true, "compact": true, "combine": true, "number": true, "iir": true}
 
 // hasLazyStage: a method call that creates a lazy list stage with a callback
 func (n *pgNode) hasLazyStage() bool {
@@ -1886,12 +1886,15 @@ func (g *pgProgGen) chain(t *pgTy, e *pgGenv, size int) *pgNode {
 //	6 recursive func inside: (a -> func g(n) if n <= 0 then 0 else (y -> tick(k, n*10 + y))(1) + g(n - 1); g(a))(2)
 //
 // k is the tick id; names are the closure parameters to use (4 pairwise different names)
+// number of forms of pgImpureNested (form 6 is the default branch)
+const pgImpureForms = 13
+
 func pgImpureNested(form int, k int64, ns []string, c1, c2, c3 int64) *pgNode {
 	x, y, z, f := ns[0], ns[1], ns[2], ns[3]
 	tick := func(e *pgNode) *pgNode { return pgNCall("static", pgNId("tick"), pgNInt(k), e) }
 	xy := func() *pgNode { return pgNOp("+", pgNOp("*", pgNId(x), pgNInt(10)), pgNId(y)) }
 	inner := func() *pgNode { return pgNClo([]string{y}, tick(xy())) }
-	switch form % 7 {
+	switch form % pgImpureForms {
 	case 0:
 		return pgNLet(f, pgNClo([]string{x}, pgNCall("closure", inner(), pgNInt(c2))), pgNCall("closure", pgNId(f), pgNInt(c1)))
 	case 1:
@@ -1906,6 +1909,18 @@ func pgImpureNested(form int, k int64, ns []string, c1, c2, c3 int64) *pgNode {
 	case 5:
 		cb := pgNClo([]string{z, y}, tick(pgNOp("+", pgNId(z), pgNOp("*", pgNId(x), pgNId(y)))))
 		return pgNCall("closure", pgNClo([]string{x}, pgNMethod("method", pgNList(pgNInt(c1), pgNInt(c2)), "mapReduce", pgNInt(0), cb)), pgNInt(c3))
+	case 7: // tick in the try part of a non-capturing closure applied to a constant
+		return pgNCall("closure", pgNClo([]string{x}, pgNTry(tick(pgNOp("*", pgNId(x), pgNInt(2))), pgNInt(-1))), pgNInt(c1))
+	case 8: // tick in the catch part
+		return pgNCall("closure", pgNClo([]string{x}, pgNTry(pgNIndex(pgNList(), pgNId(x)), tick(pgNOp("+", pgNId(x), pgNInt(c2))))), pgNInt(c1))
+	case 9: // tick in a catch closure
+		return pgNCall("closure", pgNClo([]string{x}, pgNTry(pgNIndex(pgNList(), pgNId(x)), pgNClo([]string{y}, tick(pgNOp("-", pgNId(x), pgNInt(c2)))))), pgNInt(c1))
+	case 10: // via a pure method of a constant list
+		return pgNMethod("method", pgNMethod("method", pgNList(pgNInt(c1), pgNInt(c2)), "map", pgNClo([]string{x}, pgNTry(tick(pgNOp("+", pgNId(x), pgNInt(c3))), pgNInt(0)))), "sum")
+	case 11: // via a map field
+		return pgNMethod("mapfield", pgNMap([]string{"f"}, []*pgNode{pgNClo([]string{x}, pgNTry(tick(pgNId(x)), pgNInt(0)))}), "f", pgNInt(c1))
+	case 12: // bound by let, try inside a nested capturing closure
+		return pgNLet(f, pgNClo([]string{x}, pgNCall("closure", pgNClo([]string{y}, pgNTry(tick(xy()), pgNId(y))), pgNInt(c2))), pgNCall("closure", pgNId(f), pgNInt(c1)))
 	}
 	rec := pgNIf(pgNOp("<=", pgNId(z), pgNInt(0)), pgNInt(0),
 		pgNOp("+", pgNCall("closure", pgNClo([]string{y}, tick(pgNOp("+", pgNOp("*", pgNId(z), pgNInt(10)), pgNId(y)))), pgNInt(c1)),
@@ -1922,7 +1937,35 @@ func (g *pgProgGen) impureNested(e *pgGenv) *pgNode {
 		}
 	}
 	g.tickN++
-	return pgImpureNested(g.pick(7), int64(g.tickN), ns, int64(1+g.pick(4)), int64(1+g.pick(5)), int64(g.pick(4)))
+	return pgImpureNested(g.pick(pgImpureForms), int64(g.tickN), ns, int64(1+g.pick(4)), int64(1+g.pick(5)), int64(g.pick(4)))
+}
+
+// pgSharedConst: a non-capturing closure (folded to a constant by the optimizer) whose body has a
+// constant list/map literal as an operand - with the optimizer ONE shared value for all calls and all
+// evaluations, without it a fresh one per call - applied several times in one program:
+//
+//	let f = x -> [1, 3] ~ x; [f(l), f(l), f(l)]
+func pgSharedConst(form int, fname, x string, arg *pgNode, c1, c2 int64) *pgNode {
+	k := func() *pgNode { return pgNList(pgNInt(c1), pgNInt(c2)) }
+	var body *pgNode
+	switch form % 7 {
+	case 0:
+		body = pgNOp("~", k(), pgNId(x))
+	case 1:
+		body = pgNOp("~", pgNId(x), pgNList(k(), pgNList(pgNInt(c2))))
+	case 2:
+		body = pgNOp("=", k(), pgNId(x))
+	case 3:
+		body = pgNOp("+", k(), pgNId(x))
+	case 4:
+		body = pgNMethod("method", k(), "append", pgNMethod("method", pgNId(x), "size"))
+	case 5:
+		body = pgNMethod("method", pgNOp("+", pgNMap([]string{"a"}, []*pgNode{pgNInt(c1)}), pgNMap([]string{"b"}, []*pgNode{pgNMethod("method", pgNId(x), "size")})), "size")
+	default:
+		body = pgNOp("~", pgNList(pgNInt(c2), pgNInt(c1), pgNInt(c2)), pgNOp("+", pgNId(x), k()))
+	}
+	call := func() *pgNode { return pgNCall("closure", pgNId(fname), arg) }
+	return pgNLet(fname, pgNClo([]string{x}, body), pgNList(call(), call(), call()))
 }
 
 // pgEraseTicks: the tree with every call tick(k, x) / ptick(k, x) replaced by x (for the specification side)
@@ -2013,6 +2056,138 @@ type pgProgram struct {
 	ArgNames []string  `json:"arg_names"`
 	Tuples   [][]*Tree `json:"tuples"`
 	Stream   string    `json:"stream"` // corpus well-typed ill-typed redeclare
+	Oracle   *pgOracle `json:"oracle,omitempty"`
+}
+
+// pgOracle: a template program whose value the harness can compute itself (an independent Go-side
+// evaluation for built-ins the Coq model does not cover): the lazy-stage-then-lets shape
+//
+//	let c = l.<stage>; let p = n + K1; let q = n * K2; let s = c.<consumer>; [s, p, q]
+//
+// with the arguments l (list of ints) and n (int)
+type pgOracle struct {
+	Stage    string `json:"stage"`    // compact combine number iir map accept
+	Consumer string `json:"consumer"` // size sum
+	K1, K2   int64
+	Extra    bool // a third let between creation and consumption
+}
+
+var pgLetStages = []string{"compact", "combine", "number", "iir", "map", "accept"}
+
+func pgLazyLetProgram(stage, consumer string, k1, k2 int64, extra bool, tuples [][]*Tree) *pgProgram {
+	l, n := pgNId("l"), pgNId("n")
+	ab := []string{"a", "b"}
+	var st *pgNode
+	switch stage {
+	case "compact":
+		st = pgNMethod("method", l, "compact", pgNClo(ab, pgNOp("=", pgNId("a"), pgNId("b"))))
+	case "combine":
+		st = pgNMethod("method", l, "combine", pgNClo(ab, pgNOp("-", pgNOp("*", pgNId("a"), pgNInt(2)), pgNId("b"))))
+	case "number":
+		st = pgNMethod("method", l, "number", pgNClo(ab, pgNOp("+", pgNOp("*", pgNId("a"), pgNInt(100)), pgNId("b"))))
+	case "iir":
+		st = pgNMethod("method", l, "iir", pgNClo([]string{"a"}, pgNOp("*", pgNId("a"), pgNInt(3))), pgNClo(ab, pgNOp("-", pgNId("a"), pgNId("b"))))
+	case "map":
+		st = pgNMethod("method", l, "map", pgNClo([]string{"a"}, pgNOp("-", pgNOp("*", pgNId("a"), pgNInt(2)), pgNInt(1))))
+	default:
+		st = pgNMethod("method", l, "accept", pgNClo([]string{"a"}, pgNOp(">", pgNId("a"), pgNInt(1))))
+	}
+	var cons *pgNode
+	if consumer == "size" {
+		cons = pgNMethod("method", pgNId("c"), "size")
+	} else {
+		cons = pgNMethod("method", pgNId("c"), "mapReduce", pgNInt(0), pgNClo(ab, pgNOp("+", pgNId("a"), pgNId("b"))))
+	}
+	res := pgNList(pgNId("s"), pgNId("p"), pgNId("q"))
+	body := pgNLet("s", cons, res)
+	if extra {
+		res.Kids = append(res.Kids, pgNId("r"))
+		body = pgNLet("r", pgNOp("-", n, pgNId("p")), body)
+	}
+	t := pgNLet("c", st, pgNLet("p", pgNOp("+", n, pgNInt(k1)), pgNLet("q", pgNOp("*", n, pgNInt(k2)), body)))
+	return &pgProgram{T: t, ArgNames: []string{"l", "n"}, Tuples: tuples, Stream: "lazy-stage-then-lets",
+		Oracle: &pgOracle{Stage: stage, Consumer: consumer, K1: k1, K2: k2, Extra: extra}}
+}
+
+// the value of the template computed natively (Go int arithmetic wraps like the implementation's)
+func (o *pgOracle) Expected(tuple []*Tree) (string, bool) {
+	if len(tuple) != 2 || tuple[0].Kind != "list" || tuple[1].Kind != "int" {
+		return "", false
+	}
+	var l []int
+	for _, it := range tuple[0].Items {
+		if it.Kind != "int" {
+			return "", false
+		}
+		l = append(l, it.I)
+	}
+	n := tuple[1].I
+	var c []int
+	switch o.Stage {
+	case "compact":
+		for i, v := range l {
+			if i == 0 || v != c[len(c)-1] {
+				c = append(c, v)
+			}
+		}
+	case "combine":
+		for i := 0; i+1 < len(l); i++ {
+			c = append(c, l[i]*2-l[i+1])
+		}
+	case "number":
+		for i, v := range l {
+			c = append(c, i*100+v)
+		}
+	case "iir":
+		for i, v := range l {
+			if i == 0 {
+				c = append(c, v*3)
+			} else {
+				c = append(c, v-c[i-1])
+			}
+		}
+	case "map":
+		for _, v := range l {
+			c = append(c, v*2-1)
+		}
+	default:
+		for _, v := range l {
+			if v > 1 {
+				c = append(c, v)
+			}
+		}
+	}
+	s := len(c)
+	if o.Consumer != "size" {
+		s = 0
+		for _, v := range c {
+			s += v
+		}
+	}
+	p := n + int(o.K1)
+	q := n * int(o.K2)
+	res := fmt.Sprintf("[i%d,i%d,i%d", s, p, q)
+	if o.Extra {
+		res += fmt.Sprintf(",i%d", n-p)
+	}
+	return res + "]", true
+}
+
+func (g *pgProgGen) lazyLetProgram() *pgProgram {
+	var tuples [][]*Tree
+	for v := 0; v < 3; v++ {
+		k := 2 + g.pick(4)
+		var items []*Tree
+		last := g.pick(4)
+		for i := 0; i < k; i++ {
+			if g.chance(0.5) {
+				last = g.pick(5)
+			}
+			items = append(items, &Tree{Kind: "int", I: last})
+		}
+		tuples = append(tuples, []*Tree{{Kind: "list", Items: items, Repr: "eager"}, {Kind: "int", I: 10*(v+1) + g.pick(90)}})
+	}
+	return pgLazyLetProgram(g.oneOf(pgLetStages), g.oneOf([]string{"size", "sum"}), int64(1+g.pick(9)), int64(2+g.pick(5)), g.chance(0.4), tuples)
 }
 
 var pgArgNamePool = []string{"x", "y", "z", "x", "y", "pi", "sqr"}
@@ -2034,6 +2209,9 @@ func pgGenProgramMode(r *Rng, statics map[string]bool, maxNodes int, c02 bool) *
 		case c < 12:
 			g.redecl = true
 			stream = "redeclare"
+		}
+		if !c02 && r.Chance(0.03) {
+			return g.lazyLetProgram()
 		}
 		nargs := 1 + r.Pick(3)
 		var names []string
